@@ -57,7 +57,7 @@ def main():
         sh(f"git -C /repo worktree remove --force {wt}")
         shutil.rmtree(wt, ignore_errors=True)
     if meta.get("confirmed"):
-        rc, out = sh(f"python3 /verif/tools/mutrun.py patch {os.path.abspath(patch)}")
+        rc, out = sh(f"python3 /verif/tools/mutrun.py patch {os.path.abspath(patch)} {os.environ.get('SEED_PROPS', '')}")
         det = [l for l in out.splitlines() if l.startswith("== ")]
         meta["checks"] = det[0] if det else out[-500:]
         meta["violation_lines"] = [l.strip() for l in out.splitlines() if "VIOLATION" in l][:6]
